@@ -183,3 +183,12 @@ package transport
 //@ func (*TarsClient).Send
 //@   trusted
 //@   allocates
+
+// NewTarsClient (C08): every adapter gets a transport client of its own, bound to the protocol object (the adapter
+// whose Recv is handed the replies of this connection) that was passed in - replies can only reach the pending
+// table of the adapter that sent the request.
+//@ func NewTarsClient
+//@   requires config != nil
+//@   modifies config.QueueLen
+//@   allocates
+//@   ensures [C08] result != nil && fresh(result) && result.protocol == protocol && result.conn != nil && fresh(result.conn) && result.conn.client == result
